@@ -131,3 +131,84 @@ fn f24_async_physical_setters_need_tokio() {
     let err = res.expect_err("setter worked without a tokio runtime");
     assert!(matches!(err.kind(), vfs::error::VfsErrorKind::NotSupported), "{:?}", err);
 }
+
+/// async twin of F8 (C01/C03/C09/C15): AsyncOverlayFS::remove_file on a lower-only directory succeeds and hides it.
+#[cfg(feature = "async-vfs")]
+#[test]
+fn f8a_async_overlay_remove_file_on_lower_directory() {
+    use vfs::async_vfs::*;
+    tokio_test::block_on(async {
+        let lower = AsyncVfsPath::new(AsyncMemoryFS::new());
+        let upper = AsyncVfsPath::new(AsyncMemoryFS::new());
+        lower.join("d/c").unwrap().create_dir_all().await.unwrap();
+        let ov = AsyncVfsPath::new(AsyncOverlayFS::new(&[upper, lower]));
+        assert!(ov.join("d").unwrap().remove_file().await.is_ok(), "refused");
+        assert!(!ov.join("d").unwrap().exists().await.unwrap());
+        assert!(ov.join("d/c").unwrap().exists().await.unwrap(), "child hidden as well");
+    });
+}
+
+/// async twin of F10 (C09/C10/C15): the async overlay root lists its bookkeeping directory after one removal.
+#[cfg(feature = "async-vfs")]
+#[test]
+fn f10a_async_overlay_lists_whiteout_directory() {
+    use futures::StreamExt;
+    use vfs::async_vfs::*;
+    tokio_test::block_on(async {
+        let lower = AsyncVfsPath::new(AsyncMemoryFS::new());
+        let upper = AsyncVfsPath::new(AsyncMemoryFS::new());
+        drop(lower.join("f").unwrap().create_file().await.unwrap());
+        let ov = AsyncVfsPath::new(AsyncOverlayFS::new(&[upper, lower]));
+        ov.join("f").unwrap().remove_file().await.unwrap();
+        let names: Vec<String> = ov.read_dir().await.unwrap().map(|p| p.filename()).collect().await;
+        assert!(names.contains(&".whiteout".to_string()), "{:?}", names);
+        assert!(ov.join(".whiteout").unwrap().exists().await.unwrap());
+    });
+}
+
+/// async twin of F11 (C01/C09/C19/C15): a timestamp setter on a file served from a lower layer of an async overlay
+/// over physical layers fails as not-found although the overlay shows the file.
+#[cfg(feature = "async-vfs")]
+#[test]
+fn f11a_async_overlay_set_time_on_lower_file() {
+    use vfs::async_vfs::*;
+    let base = std::env::temp_dir().join(format!("vfs-f11a-{}", std::process::id()));
+    std::fs::create_dir_all(base.join("upper")).unwrap();
+    std::fs::create_dir_all(base.join("lower")).unwrap();
+    std::fs::write(base.join("lower/f"), b"x").unwrap();
+    let res = tokio_test::block_on(async {
+        let lower = AsyncVfsPath::new(AsyncPhysicalFS::new(base.join("lower")));
+        let upper = AsyncVfsPath::new(AsyncPhysicalFS::new(base.join("upper")));
+        let ov = AsyncVfsPath::new(AsyncOverlayFS::new(&[upper, lower.clone()]));
+        assert!(ov.join("f").unwrap().exists().await.unwrap());
+        // directly on the layer the setter works
+        lower.join("f").unwrap().set_modification_time(std::time::SystemTime::now()).await.unwrap();
+        ov.join("f").unwrap().set_modification_time(std::time::SystemTime::now()).await
+    });
+    let _ = std::fs::remove_dir_all(&base);
+    let err = res.expect_err("setter worked");
+    assert!(matches!(err.kind(), vfs::error::VfsErrorKind::FileNotFound), "{:?}", err);
+}
+
+/// async twin of F18 (C16 A/R16.3): an async write handle dropped after its file and the parent directory were
+/// removed re-creates the file as an orphan.
+#[cfg(feature = "async-vfs")]
+#[test]
+fn f18a_async_late_drop_orphan() {
+    use async_std::io::WriteExt;
+    use vfs::async_vfs::*;
+    let (root, f, h) = async_std::task::block_on(async {
+        let root = AsyncVfsPath::new(AsyncMemoryFS::new());
+        root.join("d").unwrap().create_dir().await.unwrap();
+        let f = root.join("d/f").unwrap();
+        let mut h = f.create_file().await.unwrap();
+        h.write_all(b"x").await.unwrap();
+        f.remove_file().await.unwrap();
+        root.join("d").unwrap().remove_dir().await.unwrap();
+        (root, f, h)
+    });
+    drop(h); // outside any executor (see F25)
+    async_std::task::block_on(async {
+        assert!(f.exists().await.unwrap() && !root.join("d").unwrap().exists().await.unwrap(), "no orphan");
+    });
+}
